@@ -137,7 +137,7 @@ def initialClass (env : Env) (caseBlind : Bool) : Op → Ranges
   | .cls rs => rs
   | .choice bs => initialClassChoice env caseBlind bs
   | .seq ops => initialClassSeq env caseBlind ops
-  | .rep _ c _ _ _ => initialClass env caseBlind c
+  | .rep _ c mn _ _ => if mn == 0 then allR else initialClass env caseBlind c
   | _ => allR
 termination_by structural o => o
 def initialClassChoice (env : Env) (caseBlind : Bool) : List Op → Ranges
